@@ -1332,8 +1332,23 @@ def set_method(I, st, ref, name):
     def copy(I, st, a, k):
         yield st, st.alloc(SetE(S(st)))
 
+    def symmetric_difference(I, st, a, k):
+        # s.symmetric_difference(other): elements in exactly one of the two (exactly one argument; concrete keys only)
+        if len(a) != 1 or k:
+            raise Unsupported("set.symmetric_difference takes exactly one argument")
+        mine = list(S(st))
+        other = []
+        for x in I.iterate(a[0], st):
+            x = I.hashable(x)
+            if x not in other:
+                other.append(x)
+        if any(is_z3(x) for x in mine + other) or st.get(ref).kind == "numset":
+            raise Unsupported("set.symmetric_difference over symbolic elements")
+        yield st, st.alloc(SetE([x for x in mine if x not in other] + [x for x in other if x not in mine]))
+
     tbl = dict(add=add, discard=discard, remove=remove, update=update, union=union, intersection=intersection,
-               difference=difference, difference_update=difference_update, issubset=issubset, copy=copy)
+               difference=difference, difference_update=difference_update, issubset=issubset, copy=copy,
+               symmetric_difference=symmetric_difference)
     if name not in tbl:
         raise Unsupported("set method " + name)
     return bi("set." + name, tbl[name])
@@ -2215,7 +2230,12 @@ def make_builtins(I):
     add("hash", _hash)
 
     def _iter(I, st, a, k):
-        yield st, st.alloc(ListE(I.iterate(a[0], st)))
+        from .loops import lazy_begin, lazy_end
+
+        old = lazy_begin(st)  # iter() is lazy: remember which list it walks (see loops.lazy_check)
+        acc = st.alloc(ListE(I.iterate(a[0], st)))
+        lazy_end(st, old, acc)
+        yield st, acc
 
     add("iter", _iter)
 
@@ -3160,6 +3180,22 @@ def make_ext_modules(I):
     E["warnings"] = {"warn": bi("warnings.warn", lambda I, st, a, k: iter([(st, None)]))}
     # traceback.format_exc(): a string whose content is unspecified (opaque text, only ever formatted into messages)
     E["traceback"] = {"format_exc": bi("traceback.format_exc", lambda I, st, a, k: iter([(st, Opaque("traceback text"))]))}
+
+    # os.path: pure string functions on CONCRETE posix paths only (no file-system access is modelled)
+    import posixpath as _pp
+
+    def _ospath(fname):
+        fn = _b.getattr(_pp, fname)
+
+        def call(I, st, a, k):
+            if k or not a or not all(isinstance(x, str) for x in a):
+                raise Unsupported("os.path.%s on non-concrete-string arguments" % fname)
+            yield st, fn(*a)
+
+        return bi("os.path." + fname, call)
+
+    E["os"] = {"sep": "/"}
+    E["os.path"] = {n: _ospath(n) for n in ("basename", "dirname", "join", "splitext")}
 
     from . import npmodel, bytesmodel
 
